@@ -149,6 +149,12 @@ def run(vc):
         bound="one 110/20 kV network with a 6-line mesh; faults 3ph / 2ph, cases max / min, inverse_y True / False, kappa method C: ikss = c Un / "
               "(sqrt(3) |Zk|), skss = sqrt(3) Un ikss, 2ph = sqrt(3)/2 3ph, kappa in [1.02, 2], results independent of inverse_y",
         script="from replaylib.shortcircuit import main\nmain()\n"))
+    vc.native_standins.append(dict(
+        name="several sources at one node",
+        bound="fixed networks: two different synchronous generators at one bus (both orders in net.gen, and on two buses fused by a bus-bus "
+              "switch); an asynchronous / doubly-fed sgen at the bus of a network feeder; two network feeders at one node: ikss at that node",
+        script="import subprocess, sys\nr = [subprocess.run([sys.executable, '-W', 'ignore', '-c', f'from replaylib.shortcircuit import {f}; {f}()']).returncode "
+               "for f in ('main_gens_at_one_bus', 'main_sgen', 'main_feeders')]\nsys.exit(1 if 1 in r else max(r))\n"))
 
 
 def classify(ob, model):
